@@ -383,6 +383,29 @@ def rule_r6(F, rep):
     rep.floor(R, n, 8, "character classes")
 
 
+def rule_r7(F, rep):
+    R = rep.rule("C20.R7", "the base64 decoder validates the length of what it decodes: it works on the sequence of characters, in "
+                 "groups of four, and the `multiple of 4` test is made on that sequence (its remainder / its length) — a test on "
+                 "the UTF-8 byte length disagrees with the grouping for non-ASCII input, so trailing garbage is dropped unseen")
+    fns = [f for f in F.fn_list if f.crate.name == "rsjsonnet_lang" and f.q.endswith("::decode_base64")]
+    if not fns:
+        rep.violation(R, "anchor|decode_base64", "decode_base64 not found (anchor)")
+        return
+    fn = fns[0]
+    rep.fn(fn)
+    body = fn.body
+    names = [callee_name(t) or "" for _, t in body.calls()]
+    chunked = any("chunks_exact" in n or n.endswith("<[T]>::chunks") for n in names)
+    byte_len = [body.span(t["sp"]) for _, t in body.calls() if (callee_name(t) or "") in ("<str>::len", "<alloc::string::String>::len")]
+    rem_checked = any("remainder" in n for n in names) or any(n == "<[T]>::len" for n in names)
+    ok = chunked and not byte_len and rem_checked
+    rep.ob(R, "decode_base64|length-test", ok, {"groups_of_four_over_chars": chunked, "str_len_calls": byte_len, "remainder_or_slice_len_checked": rem_checked})
+    if not ok:
+        rep.violation(R, "decode_base64|length-test", "decode_base64 %s: the length test and the grouping must look at the same "
+                      "sequence of characters" % ("tests the byte length of the string (%s)" % byte_len[0] if byte_len else
+                                                  "no longer checks the remainder of the character groups"), fn.loc)
+
+
 def run(F, rep, tier):
     rule_r1(F, rep)
     units.rule_byte_index(F, rep, "C20.R2")
@@ -390,6 +413,7 @@ def run(F, rep, tier):
     rule_r4(F, rep)
     rule_r5(F, rep)
     rule_r6(F, rep)
+    rule_r7(F, rep)
     rep.assume("base64 / UTF-8 / digest / escape-function values, decoder-inverts-encoder, YAML/JSON agreement and "
                "totality inside saphyr-parser are value-level or external and not decided")
     return EXPLANATION
